@@ -262,6 +262,7 @@ def run_job(job, ctx):
     res.n_props = len(props)
     failed = []
     wfailed = []
+    model_limit = False
     for p in props:
         d = p.get('description', '')
         st = p.get('status')
@@ -289,10 +290,15 @@ def run_job(job, ctx):
                 # the harness's environment model does not cover what the code now does (e.g. a printf conversion the
                 # contract model has no rule for): that says nothing about the property, so it is not a verdict
                 res.reason += 'harness model does not cover the code (%s): not a verdict; ' % d
+                model_limit = True
             elif st == 'FAILURE':
                 failed.append((p.get('property'), d))
             elif st != 'SUCCESS':
                 res.reason += 'property %s status %s; ' % (p.get('property'), st)
+    if failed and model_limit:
+        # other assertions of this harness were written against the modelled contract; once the code leaves the model
+        # their failure is not evidence about the property
+        return res
     if failed:
         res.status = 'violation'
         res.failed = failed
